@@ -93,8 +93,16 @@ class HasAccessibles(HasProperties):
                 aobj = aobj.create_from_value(merged_properties[aname], value)
                 # replace the bare value by the created accessible
                 setattr(cls, aname, aobj)
-            else:
+            elif aname in cls.__dict__:
                 aobj.merge(merged_properties[aname])
+            else:
+                # an inherited object belongs to a base class or a mixin: do not modify it, but
+                # merge into a copy. keep the original, when merging does not change anything
+                merged = aobj.clone(aobj.propertyValues, optional=aobj.optional)
+                merged.merge(merged_properties[aname])
+                if repr(merged) != repr(aobj):
+                    aobj = merged
+                    setattr(cls, aname, aobj)
             accessibles[aname] = aobj
 
         # rebuild order:
